@@ -397,21 +397,25 @@ def run(ctx):
 
     # ---- spec -> code: the edit machine (handles, contexts, returned slices), every edit sequence
     steps = 4 if thorough else 3
-    r = ctx.tlc(S, "MC_BaggageStore", "MC_BaggageStore.cfg", defines=store_defines(ctx.tier, steps), want_edges=True,
-                name="store", timeout=3000)
-    out = os.path.join(ctx.work, "replay-store.json")
-    ctx.run([binp, "store", "-edges", r["edges_file"], "-out", out, "-rep", str(ctx.seed)], timeout=3000)
-    res = json.load(open(out))
-    add_counters(res)
-    ctx.traces_validated += res["executed"]
-    ctx.evaluations += res["evaluations"]
-    ctx.add_samples(res["samples"][:1])
-    ctx.extra["store_edges"] = r["edges"]
-    for m in res["mismatches"]:
-        c = m.get("case") or {}
-        ctx.violation({"dir": "replay-store", "op": c.get("op"), "kind": m["kind"], "verdict": "", "why": "", "cause": ""},
-                      replay={"path": m.get("path"), "act": m.get("act"), "want": m.get("want"), "got": m.get("got"),
-                              "detail": m.get("detail")})
+    #      ... and the key-class family: every key the constructors accept (token / non-token UTF-8), as member key
+    #      and as property key, x SetMember add / replace (value, properties, one property value, identical) / Delete
+    ctx.extra["store_edges"] = {}
+    for name, d in [("store", store_defines(ctx.tier, steps))] + store_key_configs(ctx.tier):
+        r = ctx.tlc(S, "MC_BaggageStore", "MC_BaggageStore.cfg", defines=d, want_edges=True, name=name, timeout=3000)
+        out = os.path.join(ctx.work, "replay-%s.json" % name)
+        ctx.run([binp, "store", "-edges", r["edges_file"], "-out", out, "-rep", str(ctx.seed)], timeout=3000)
+        res = json.load(open(out))
+        add_counters(res)
+        ctx.traces_validated += res["executed"]
+        ctx.evaluations += res["evaluations"]
+        ctx.add_samples(res["samples"][:1])
+        ctx.extra["store_edges"][name] = r["edges"]
+        for m in res["mismatches"]:
+            c = m.get("case") or {}
+            ctx.violation({"dir": "replay-store", "op": c.get("op"), "kind": m["kind"], "verdict": "", "why": "", "cause": "",
+                           "cfg": name},
+                          replay={"cfg": name, "path": m.get("path"), "act": m.get("act"), "want": m.get("want"),
+                                  "got": m.get("got"), "detail": m.get("detail")})
 
     # ---- code -> spec: random members / headers / edit scenarios + boundary families at the real limits
     n = 3000 if thorough else 300
@@ -488,7 +492,9 @@ def run(ctx):
             "gen_new_total_bytes_8192", "gen_new_total_bytes_8193", "gen_invalid_utf8_run", "gen_hdr_duplicate_key",
             "gen_value_invalid_utf8", "gen_key_nontoken", "obs_Parse_returned", "obs_Parse_refused", "obs_New_returned",
             "obs_New_refused", "obs_New_returned_large", "obs_Parse_returned_large", "scenarios", "scn_op_SetMember",
-            "scn_op_DeleteMember", "scn_op_Propagate", "scn_op_Scribble", "scn_op_Parse", "scn_op_New", "scn_big_baggage"]
+            "scn_op_DeleteMember", "scn_op_Propagate", "scn_op_Scribble", "scn_op_Parse", "scn_op_New", "scn_big_baggage",
+            "scn_setmember_nontoken_key", "scn_replace_value", "scn_replace_properties", "scn_replace_property_value_only",
+            "scn_replace_identical", "store_replace_nontoken_key", "store_replace_token_key", "store_delete_nontoken_present"]
     missing = [k for k in need if not counters.get(k)]
     if missing:
         ctx.note_inconclusive("vacuity: regimes never reached: %s" % missing)
